@@ -41,6 +41,8 @@ var privID = kit.GenIdentity(kit.NewDRBG("ids/c13-privacy", 1), m.PrivacyAddress
 type tworld struct {
 	w          *kit.World
 	r, x, y, u *kit.Node
+	// pendingIDs: ping type -> id of the request R itself has pending with X (pending flavours).
+	pendingIDs map[string]uint64
 	p          *kit.Node // a router with a privacy (non-routable) address: it cannot hold a link, but has end-to-end keys with R; its frames arrive relayed over X's link
 }
 
@@ -76,6 +78,26 @@ func buildFlavour(swap, pending bool) *tworld {
 			must(err)
 			_, _, err = tw.r.Router().PingPong.Send(tw.x.Identity().IP, true, 0)
 			must(err)
+			// the ids of R's own pending requests (read from the request frames: signed, not encrypted).
+			tw.pendingIDs = map[string]uint64{}
+			for _, fl := range w.InFlight {
+				b := fl.Bytes
+				if len(b) < 52 || fl.From != tw.r {
+					continue
+				}
+				sw := int(b[48])
+				if len(b) < 51+sw+2 {
+					continue
+				}
+				msg := b[51+sw:]
+				if len(msg) < 2 || len(msg) < 2+int(msg[1]) {
+					continue
+				}
+				var h router.PingHeader
+				if err := cbor.Unmarshal(msg[2:2+int(msg[1])], &h); err == nil && !h.FollowUp {
+					tw.pendingIDs[h.PingType] = h.PingID
+				}
+			}
 			w.InFlight, w.Log = nil, nil
 		}()
 	}
